@@ -5,6 +5,7 @@ package main
 // conditional on something else) is reported and not merely the absence of a wrong step.
 
 import (
+	"go/constant"
 	"go/types"
 
 	"golang.org/x/tools/go/ssa"
@@ -160,3 +161,326 @@ func runFlushMust(c *Ctx, r *RuleRun) {
 		r.Undecided("flusher", "flushed before it is dropped", "", "no removal from DB.immutables in the flusher")
 	}
 }
+
+func init() {
+	register(&Rule{ID: "ERR.POLARITY", Engine: "E-GUARD", Min: 10,
+		Desc: "failure handlers run on failure: a call that reports an error value (Panicf/Errorf/… with the error as an argument) is never dominated by the fact that this very error is nil",
+		Run:  runErrPolarity})
+	register(&Rule{ID: "RECOVER.SECTIONS", Engine: "E-DEP", Min: 8,
+		Desc: "table recovery reads each section from where the previous one says it is: footer = the last <footer size> bytes, index = Length bytes at footer.IndexBlock.Offset, data = Length bytes at index.DataBlock.Offset, each read into the buffer that is then decoded",
+		Run:  runRecoverSections})
+	register(&Rule{ID: "RECOVER.MUST", Engine: "E-GUARD", Min: 2,
+		Desc: "table recovery loads every regular *.db file: the file filter does not select directories, and recovery returns before its file loop only when there is no table file",
+		Run:  runRecoverMust})
+}
+
+// errorArgs: error-typed values handed to a call, directly or through its variadic ...any slice.
+func errorArgs(cl ssa.CallInstruction) []ssa.Value {
+	var out []ssa.Value
+	add := func(v ssa.Value) {
+		if mi, ok := v.(*ssa.MakeInterface); ok {
+			v = mi.X
+		}
+		if ci, ok := v.(*ssa.ChangeInterface); ok {
+			v = ci.X
+		}
+		if v != nil && isErrorType(v.Type()) {
+			out = append(out, v)
+		}
+	}
+	for _, a := range cl.Common().Args {
+		add(a)
+		if sl, ok := a.(*ssa.Slice); ok {
+			if al, ok := sl.X.(*ssa.Alloc); ok {
+				for _, ref := range *al.Referrers() {
+					if ia, ok := ref.(*ssa.IndexAddr); ok {
+						for _, r2 := range *ia.Referrers() {
+							if st, ok := r2.(*ssa.Store); ok {
+								add(st.Val)
+							}
+						}
+					}
+				}
+			}
+		}
+	}
+	return out
+}
+
+func runErrPolarity(c *Ctx, r *RuleRun) {
+	p := c.P
+	for _, f := range p.Funcs {
+		fn := p.FnName(f)
+		eachInstr(f, func(ins ssa.Instruction) {
+			ci, ok := ins.(ssa.CallInstruction)
+			if !ok {
+				return
+			}
+			if _, isDefer := ins.(*ssa.Defer); isDefer {
+				return
+			}
+			name := ""
+			if ci.Common().IsInvoke() {
+				name = ci.Common().Method.Name()
+			} else if obj := p.CalleeObj(ci); obj != nil {
+				name = obj.Name()
+			}
+			switch name {
+			case "Panicf", "Panic", "Fatalf", "Fatal", "Errorf", "Warnf", "Error":
+			default:
+				return
+			}
+			for _, ev := range errorArgs(ci) {
+				if _, isConst := ev.(*ssa.Const); isConst {
+					continue
+				}
+				if _, isGlobal := ev.(*ssa.UnOp); isGlobal && globalLoaded(ev) != nil {
+					continue
+				}
+				bad := hasFact(ins, func(cm Cmp) bool {
+					return cm.Y != nil && cm.Op == "==" && ((cm.X == ev && isNilConst(cm.Y)) || (cm.Y == ev && isNilConst(cm.X)))
+				})
+				r.Check(!bad, fn, "handler on the failure branch", p.Pos(instrPos(ins)), name+" reports an error on a branch where it can be non-nil",
+					name+" reports an error on the branch where that error is known to be nil: the failure handler runs when the operation succeeded (and not when it failed)")
+			}
+		})
+	}
+}
+
+func runRecoverSections(c *Ctx, r *RuleRun) {
+	p := c.P
+	rec := p.FnOr("", "levelManager", "recover")
+	if rec == nil {
+		r.Undecided("-", "levelManager.recover", "", "anchor not found")
+		return
+	}
+	fn := p.FnName(rec)
+	type fileCall struct {
+		call *ssa.Call
+		kind string // seek, read
+	}
+	var fcalls []fileCall
+	decodes := map[string]*ssa.Call{}
+	eachInstr(rec, func(ins ssa.Instruction) {
+		cl, ok := ins.(*ssa.Call)
+		if !ok {
+			return
+		}
+		obj := p.CalleeObj(cl)
+		if obj == nil {
+			return
+		}
+		switch {
+		case funcIs(obj, "os", "File", "Seek"):
+			fcalls = append(fcalls, fileCall{cl, "seek"})
+		case funcIs(obj, "os", "File", "Read"), funcIs(obj, "io", "", "ReadFull"), funcIs(obj, "os", "File", "ReadAt"):
+			fcalls = append(fcalls, fileCall{cl, "read"})
+		case obj.Name() == "Decode":
+			if g := cl.Call.StaticCallee(); g != nil && g.Signature.Recv() != nil {
+				if n := p.isModuleNamed(g.Signature.Recv().Type()); n != nil && n.Obj().Pkg().Path() == p.pkgPath("table") {
+					decodes[n.Obj().Name()] = cl
+				}
+			}
+		}
+	})
+	// field path of a value: e.g. footer.IndexBlock.Offset → base alloc + ["IndexBlock","Offset"]
+	fieldPath := func(v ssa.Value) (ssa.Value, []string) {
+		v = stripValue(v)
+		var names []string
+		u, ok := v.(*ssa.UnOp)
+		if !ok {
+			return nil, nil
+		}
+		cur := u.X
+		for {
+			fa, ok := cur.(*ssa.FieldAddr)
+			if !ok {
+				break
+			}
+			fv, _ := fieldOfAddr(fa)
+			names = append([]string{fv.Name()}, names...)
+			cur = fa.X
+		}
+		return cur, names
+	}
+	bufLen := func(b ssa.Value) ssa.Value {
+		switch x := b.(type) {
+		case *ssa.MakeSlice:
+			return x.Len
+		case *ssa.Slice:
+			if al, ok := x.X.(*ssa.Alloc); ok {
+				if at, ok := al.Type().Underlying().(*types.Pointer).Elem().Underlying().(*types.Array); ok {
+					return ssa.NewConst(constantInt(at.Len()), types.Typ[types.Int])
+				}
+			}
+		}
+		return nil
+	}
+	sections := []struct{ typ, parentTyp, handle string }{{"Footer", "", ""}, {"Index", "Footer", "IndexBlock"}, {"Data", "Index", "DataBlock"}}
+	for _, s := range sections {
+		d := decodes[s.typ]
+		label := func(x string) string { return s.typ + ": " + x }
+		if d == nil {
+			r.Viol(fn, label("decoded"), p.Pos(rec.Pos()), "recovery does not decode the "+s.typ+" section of a table file")
+			continue
+		}
+		buf := d.Call.Args[1]
+		// the read that fills the buffer
+		var rd *ssa.Call
+		for _, fc := range fcalls {
+			if fc.kind != "read" || !dominatesInstr(fc.call, d) {
+				continue
+			}
+			for _, a := range fc.call.Call.Args {
+				if a == buf {
+					rd = fc.call
+				}
+			}
+		}
+		r.Check(rd != nil, fn, label("read into the decoded buffer"), p.Pos(instrPos(d)), "the buffer that is decoded was filled from the file", "the buffer handed to "+s.typ+".Decode is never filled from the file (the read is missing or fills another buffer)")
+		if rd == nil {
+			continue
+		}
+		// the last seek before that read
+		var sk *ssa.Call
+		for _, fc := range fcalls {
+			if fc.kind == "seek" && dominatesInstr(fc.call, rd) && (sk == nil || dominatesInstr(sk, fc.call)) {
+				sk = fc.call
+			}
+		}
+		// no other read between the seek and this read
+		clean := sk != nil
+		if sk != nil {
+			for _, fc := range fcalls {
+				if fc.kind == "read" && fc.call != rd && dominatesInstr(sk, fc.call) && dominatesInstr(fc.call, rd) {
+					clean = false
+				}
+			}
+		}
+		if obj := p.CalleeObj(rd); obj != nil && funcIs(obj, "os", "File", "ReadAt") {
+			sk, clean = rd, true
+		}
+		if sk == nil || !clean {
+			r.Viol(fn, label("positioned"), p.Pos(instrPos(rd)), "the read of the "+s.typ+" section is not preceded by a seek of its own: it reads wherever the previous read left the file offset")
+			continue
+		}
+		offArg, whence := sk.Call.Args[1], int64(0)
+		if sk != rd {
+			whence, _ = constInt(sk.Call.Args[2])
+		} else {
+			offArg = rd.Call.Args[2]
+		}
+		bl := bufLen(buf)
+		if s.typ == "Footer" {
+			off, isK := constInt(offArg)
+			n, isN := int64(0), false
+			if bl != nil {
+				n, isN = constInt(bl)
+			}
+			r.Check(isK && isN && whence == 2 && off == -n, fn, label("positioned"), p.Pos(instrPos(sk)), "the last len(buffer) bytes of the file",
+				"the footer is not read from the last len(buffer) bytes of the file (Seek(-size, io.SeekEnd) with the size of the buffer that is decoded)")
+			continue
+		}
+		base, names := fieldPath(offArg)
+		parent := decodes[s.parentTyp]
+		okOff := parent != nil && len(names) == 2 && names[0] == s.handle && names[1] == "Offset" && base == parent.Call.Args[0] && whence == 0
+		r.Check(okOff, fn, label("positioned"), p.Pos(instrPos(sk)), "Seek("+s.parentTyp+"."+s.handle+".Offset, io.SeekStart)",
+			"the "+s.typ+" section is not read from "+s.parentTyp+"."+s.handle+".Offset (from the start of the file)")
+		var lb ssa.Value
+		var ln []string
+		if bl != nil {
+			lb, ln = fieldPath(bl)
+		}
+		okLen := parent != nil && len(ln) == 2 && ln[0] == s.handle && ln[1] == "Length" && lb == parent.Call.Args[0]
+		r.Check(okLen, fn, label("buffer size"), p.Pos(instrPos(d)), "make([]byte, "+s.parentTyp+"."+s.handle+".Length)", "the buffer for the "+s.typ+" section is not sized by "+s.parentTyp+"."+s.handle+".Length")
+	}
+}
+
+func runRecoverMust(c *Ctx, r *RuleRun) {
+	p := c.P
+	rec := p.FnOr("", "levelManager", "recover")
+	if rec == nil {
+		r.Undecided("-", "levelManager.recover", "", "anchor not found")
+		return
+	}
+	fn := p.FnName(rec)
+	// the collection of table file names: append of a string to a []string in a loop
+	n := 0
+	eachInstr(rec, func(ins ssa.Instruction) {
+		cl, ok := ins.(*ssa.Call)
+		if !ok || !inLoop(cl.Block()) {
+			return
+		}
+		bi, ok := cl.Call.Value.(*ssa.Builtin)
+		if !ok || bi.Name() != "append" {
+			return
+		}
+		sl, ok := cl.Type().Underlying().(*types.Slice)
+		if !ok {
+			return
+		}
+		if bt, ok := sl.Elem().Underlying().(*types.Basic); !ok || bt.Info()&types.IsString == 0 {
+			return
+		}
+		n++
+		dirOnly := hasFact(cl, func(cm Cmp) bool {
+			if cm.Y != nil || cm.Op != "true" {
+				return false
+			}
+			ci, ok := cm.X.(ssa.CallInstruction)
+			return ok && ci.Common().IsInvoke() && ci.Common().Method.Name() == "IsDir"
+		})
+		r.Check(!dirOnly, fn, "regular files are collected", p.Pos(instrPos(cl)), "the file filter does not require IsDir()", "only directory entries for which IsDir() is true are collected: no table file is ever recovered")
+	})
+	if n == 0 {
+		r.Undecided(fn, "regular files are collected", "", "no collection of file names found")
+	}
+	// the loop that loads the files: the one containing a Decode call
+	var loopHeader *ssa.BasicBlock
+	for _, lp := range naturalLoops(rec) {
+		for b := range lp.body {
+			for _, ins := range b.Instrs {
+				if cl, ok := ins.(*ssa.Call); ok {
+					if obj := p.CalleeObj(cl); obj != nil && obj.Name() == "Decode" {
+						if loopHeader == nil || lp.header.Dominates(loopHeader) {
+							loopHeader = lp.header
+						}
+					}
+				}
+			}
+		}
+	}
+	if loopHeader == nil {
+		r.Undecided(fn, "returns early only without table files", "", "no file loop found")
+		return
+	}
+	m := 0
+	eachInstr(rec, func(ins ssa.Instruction) {
+		ret, ok := ins.(*ssa.Return)
+		if !ok || ret.Block().Comment == "recover" {
+			return
+		}
+		if loopHeader.Dominates(ret.Block()) {
+			return // after (or inside) the file loop
+		}
+		m++
+		empty := hasFact(ret, func(cm Cmp) bool {
+			if cm.Y == nil || cm.Op != "==" {
+				return false
+			}
+			k, isK := constInt(cm.Y)
+			lc, isC := stripValue(cm.X).(*ssa.Call)
+			if !isK || k != 0 || !isC {
+				return false
+			}
+			bi, isBi := lc.Call.Value.(*ssa.Builtin)
+			return isBi && bi.Name() == "len"
+		})
+		r.Check(empty, fn, "returns early only without table files", p.Pos(instrPos(ret)), "guarded by len(files) == 0", "recovery returns before loading the table files on a condition other than 'there are none': tables on disk are ignored at Open and their contents are lost")
+	})
+	if m == 0 {
+		r.Hold(fn, "returns early only without table files", p.Pos(rec.Pos()), "no early return")
+	}
+}
+
+func constantInt(n int64) constant.Value { return constant.MakeInt64(n) }
